@@ -78,7 +78,8 @@ Definition run_aop (w : aworld) (o : aop) : MA value :=
   | ASetTrig k => lift (modify (fun s => s <| trig := k |>)) ;;; ret VU
   | ATape t => lift (modify (fun s => s <| tape := t |>)) ;;; ret VU
   | ACopy src hu =>
-      (* [src_bdd.copy(u, self)]: u is a handle of manager [src] *)
+      (* [src_bdd.copy(u, self)]: u is a handle of ANOTHER manager [src]
+         (the copy into the manager itself is [a_copy_same], see [run_aop']) *)
       match w !! src with
       | None => raise EKey
       | Some asrc =>
@@ -93,9 +94,25 @@ Definition run_aop (w : aworld) (o : aop) : MA value :=
   | AShutdown => r <- lift shutdown_ ;; ret (VB r)
   end.
 
+(** [dd.autoref.copy_bdd(u, target)] with [u.manager is target._bdd]:
+    [dd.bdd.copy_bdd] returns [u.node] at once ([if from_bdd is to_bdd: return u]);
+    nothing is computed, no node is created, the [ite] cache is not touched.
+    The result is [target._wrap(u.node)]: a second [Function] on the same node
+    with a reference of its own. *)
+Definition a_copy_same (hu : nat) : MA value :=
+  u <- node_of hu ;; h <- wrap u ;; ret (VN h).
+
+(** the operation [o] called on manager [m] of the world: a copy whose source
+    is [m] itself is the same-manager copy; everything else is [run_aop] *)
+Definition run_aop' (w : aworld) (m : nat) (o : aop) : MA value :=
+  match o with
+  | ACopy src hu => if decide (src = m) then a_copy_same hu else run_aop w o
+  | _ => run_aop w o
+  end.
+
 Definition astep (w : aworld) (m : nat) (o : aop) : aworld * res value :=
   let a := default empty_ast (w !! m) in
-  let '(r, a') := run_aop w o a in
+  let '(r, a') := run_aop' w m o a in
   let a' := match o with
             | ATape _ => a'
             | _ => a' <| mgr := (mgr a') <| tape := [] |> |>
